@@ -57,7 +57,13 @@ package batchers
 //@   requires *s != nil && !mu_held(*s)
 //@   ensures !mu_held(*s) && (old((*s).errorCount) < 9223372036854775807 ==> (*s).errorCount == old((*s).errorCount) + 1)
 
+// ownership: a batch handed to the channel belongs to its consumer; the reader never appends to
+// (and so never overwrites) a backing array it has already sent
+//@ ghost handed_off(array) bool
 //@ func (*Batcher).syncReaderToBatcher
+//@   ghostset at "s.c <- extractor.InputBatch{"#1 : handed_off(ref(batch)) := true
+//@   assert at "batch = append(batch, readahead.Bytes())" : !handed_off(ref(batch))
+//@   loop 1 invariant !handed_off(ref(batch))
 //@   requires s != nil && reader != nil && s.c != nil && !chan_closed(s.c) && !mu_held(s) && batchSize >= 1
 //@   requires n_lines(s) == 0 && sent_lines(s) == 0
 //@   modifies world
@@ -79,6 +85,9 @@ package batchers
 
 // same cutting discipline; a batch may additionally be flushed early by the timer (never empty)
 //@ func (*Batcher).syncReaderToBatcherWithTimeFlush
+//@   ghostset at "s.c <- extractor.InputBatch{"#1 : handed_off(ref(batch)) := true
+//@   assert at "batch = append(batch, readahead.Bytes())" : !handed_off(ref(batch))
+//@   loop 1 invariant !handed_off(ref(batch))
 //@   requires s != nil && reader != nil && s.c != nil && !chan_closed(s.c) && !mu_held(s) && batchSize >= 1
 //@   requires n_lines(s) == 0 && sent_lines(s) == 0
 //@   modifies world
